@@ -122,4 +122,12 @@ theorem no_exception {first : Nat} {log : List Entry} {p B : Nat} (wf : WF first
   cases hr'
   exact ⟨_, hrun⟩
 
+/-- **No exception with any wall-clock cut-off and any disconnect point.**  In the regular region the send run
+returns a value whatever iteration budget the clock leaves and whichever `transport.send` call drops the node. -/
+theorem no_exception_any_cutoff {first : Nat} {log : List Entry} {p B : Nat} (wf : WF first log p B)
+    (term commit : Nat) (snap : List (Option Bool)) (budget dropAfter : Option Nat) :
+    ∃ r, sendOne ⟨B, term, commit, dropAfter⟩ log (first + p) snap budget = .ok r := by
+  unfold sendOne
+  exact sendLoop_ok wf.ne wf.idx _ snap _ p true budget 0 wf.p1 wf.p2
+
 end PSO.C11
